@@ -8,9 +8,9 @@ package graph
 
 // VerifPopHook, when non-nil, is called by Dijkstra for every vertex taken
 // off the priority queue, with the vertex hashcode and its distance.
-var VerifPopHook func(v interface{}, distance int32)
+var VerifPopHook func(v interface{}, distance int)
 
-func verifPop(v interface{}, distance int32) {
+func verifPop(v interface{}, distance int) {
 	if h := VerifPopHook; h != nil {
 		h(v, distance)
 	}
